@@ -220,8 +220,14 @@ pub fn worker(ctx: &mut Ctx) {
                             if !cleared.contains(&target_sig) {
                                 rep_in.finding("C16", "clear-ignored", text.len(), || json!({"text": text, "ignored": target_sig}), || "after clear_ignored_lints the lint is still hidden".to_string());
                             }
-                            let imp = lin.import_ignored_lints(exported);
+                            let imp = lin.import_ignored_lints(exported.clone());
                             let restored: Vec<String> = lin.lint(text.clone(), lang).iter().map(lint_sig).collect();
+                            // importing the same list again, into the now non-empty list, changes nothing
+                            let _ = lin.import_ignored_lints(exported);
+                            let again: Vec<String> = lin.lint(text.clone(), lang).iter().map(lint_sig).collect();
+                            if again != restored {
+                                rep_in.finding("C16", "import-into-non-empty-list", text.len(), || json!({"text": text, "ignored": target_sig}), || format!("importing an ignore list into a non-empty one changed the result: {:?} vs {:?}", again, restored));
+                            }
                             trace.push(json!("export+clear+import ignored lints"));
                             if imp.is_err() || restored != after {
                                 rep_in.finding("C16", "export-import-ignored", text.len(), || json!({"text": text, "ignored": target_sig}), || format!("after export -> clear -> import the result differs: {:?} vs {:?}", restored, after));
